@@ -112,6 +112,8 @@ class Auth(object):
         key_material = digest.finalize()
 
         parts = password_hash.encode('utf-8').split(b':')
+        if len(parts) != 4:
+            raise ValueError("invalid hash format")
         kind = parts[0]
         version = parts[1]
         params = base64.b64decode(parts[2])
